@@ -1,6 +1,7 @@
 package props
 
 import (
+	"fmt"
 	"strconv"
 	"strings"
 
@@ -113,4 +114,51 @@ func (c *Ctx) builtinFlagSweep(ss []string) {
 			}
 		}
 	}
+}
+
+// limitHistories: a parse under a limit must not depend on an earlier parse in the same process, and
+// must give the tree of the unlimited parse down to positions and comment groups (compared in the
+// worker by reflect.DeepEqual). Earlier texts end in comments, stop inside comment runs under small
+// limits, or are ordinary corpus documents.
+func (c *Ctx) limitHistories(grammar string, corpus []string) {
+	g := "q"
+	earlier := []string{"{ a }\n# note\n", "# one\n# two\n{ f }", "{ f # one\n# two\n}", "query Q { a } # tail", "# only a comment"}
+	if grammar == "schema" {
+		g = "s"
+		earlier = []string{"type T { a: Int }\n# note\n", "# one\n# two\ntype T { f: Int }", "type T {\n # one\n # two\n f: Int\n}", "scalar S # tail", "# only a comment"}
+	}
+	var reqs []string
+	for i, doc := range corpus {
+		if len(doc) > 3000 {
+			continue
+		}
+		n := TokenCount([]byte(doc))
+		for k, e := range earlier {
+			if (i+k)%3 != 0 {
+				continue
+			}
+			for _, l0 := range []int{1, 2, 3, 0} {
+				reqs = append(reqs, fmt.Sprintf("pqhist %s %d %s %d %s", g, l0, impl.HexW([]byte(e)), n+5, impl.HexW([]byte(doc))))
+			}
+		}
+		reqs = append(reqs, fmt.Sprintf("pqhist %s %d %s %d %s", g, 2, impl.HexW([]byte(corpus[(i+1)%len(corpus)])), 0, impl.HexW([]byte(doc))))
+	}
+	// every history in a process of its own would be exact; the worker pool gives each process many
+	// histories in a row, which only adds earlier parses
+	out := c.Worker.Map(reqs)
+	for i, o := range out {
+		c.Ev.Case("pqhist:"+clip(o, 12)+clip(reqs[i], 60), true)
+		if o != "same" && o != "SKIPPED" {
+			f := strings.Fields(o)
+			what := o
+			if len(f) == 3 {
+				a, _ := impl.UnhexW(f[1])
+				b, _ := impl.UnhexW(f[2])
+				da, db := firstDiffLine(string(a), string(b))
+				what = "tree-differs: [" + clipL(da) + "] under the limit vs [" + clipL(db) + "] without"
+			}
+			c.Report("spec", "limited-parse-differs-after-earlier-parse", fmt.Sprintf("%s: %s", clip(reqs[i], 160), what), map[string]any{"op": "pqhist", "request": reqs[i], "observation": clip(o, 2000)})
+		}
+	}
+	c.Ev.Count("limit-histories:"+grammar, len(reqs))
 }
